@@ -151,8 +151,35 @@ def run(tier='quick', repo=None):
             return isinstance(n, dict) and n.get('k') == 'call' and n.get('fn') == 'ubase_check' and pol != neg
         oks = ev.find(ok_return)
         ok = all(pr.control_dependent(fn, ev, o, failed) for o in oks)
+    # and the arm taken when the single-owner test failed reaches no success return (whatever else is tested on the way)
+    if ok:
+        ldefs = fn.local_defs()
+        ntests = 0
+        for bid in fn.blocks:
+            c = fn.cond(bid)
+            if not c:
+                continue
+            n, neg = strip_expect(fn.resolve(c[0]))
+            if not (isinstance(n, dict) and n.get('k') == 'call' and n.get('fn') == 'ubase_check' and n.get('args')):
+                continue
+            a = strip_all_casts(fn.resolve(n['args'][0]))
+            if isinstance(a, dict) and a.get('k') == 'ref' and a.get('n') in ldefs:
+                a = strip_all_casts(ldefs[a['n']])
+            if not (isinstance(a, dict) and single_call(a)):
+                continue
+            ntests += 1
+            failing = c[2] if not neg else c[1]
+            if failing is None:
+                continue
+            reach = fn.reachable_from(failing)
+            for b2 in reach:
+                for st2 in fn.stmts(b2):
+                    if ok_return(st2):
+                        ok = False
+        if not ntests:
+            ok = False
     rep.add('R-cow-gate', 'ubuf_block_write:UBUF_SINGLE-before-success', HOLDS if ok else VIOLATED, fn.loc,
-            **({} if ok else {'what': 'ubuf_block_write can return UBASE_ERR_NONE without ubuf_control(ubuf, UBUF_SINGLE) having succeeded'}))
+            **({} if ok else {'what': 'ubuf_block_write can return UBASE_ERR_NONE without ubuf_control(ubuf, UBUF_SINGLE) having succeeded (a path from the failure of the single-owner test reaches a success return)'}))
     check_compare_one(rep, H.funcs['ubuf_mem_shared_single'], 'uatomic_load', 'R-cow-gate', 'ubuf_mem_shared_single:full-width==1',
                       'ubuf_mem_shared_single must compare the 32-bit count returned by uatomic_load with 1 (no narrowing, no other bound)')
     ub = prog.units['lib/upipe/ubuf_block_mem.c']
